@@ -28,6 +28,9 @@ type c03Script struct {
 	Other  map[string]string `json:"other,omitempty"` // a second authentic message, source of splices
 	Muts   []wire.Mut        `json:"muts,omitempty"`
 	Byz    string            `json:"byz,omitempty"` // how a Byzantine tuple was constructed (informational)
+	// Before lists tuples that were delivered (and verified) earlier into the SAME receive
+	// buffers: the verifier's caller reuses its buffers, as a network receive loop does.
+	Before []map[string]string `json:"before,omitempty"`
 }
 
 type c03 struct{}
@@ -54,7 +57,7 @@ func (c03) Meta() core.Meta {
 			"oracle": "sm2ref.Verify (GM/T 0003.2 B1-B7 on math/big affine arithmetic)"},
 		Assumptions: []string{"sm2ref is correct (anchors)", "ids are kept below 8192 bytes (ENTL overflow is C13's question)", "error values are not judged, only the boolean and panics",
 			"the equivalence over all byte strings is sampled around authentic and solved-for tuples, not enumerated"},
-		FaultKinds: []string{"wire:flip", "wire:drop", "wire:insert", "wire:trunc", "wire:extend", "wire:zero", "wire:swap", "wire:splice", "byz:*"},
+		FaultKinds: []string{"wire:flip", "wire:drop", "wire:insert", "wire:trunc", "wire:extend", "wire:zero", "wire:swap", "wire:splice", "byz:*", "reused-receive-buffers"},
 		ProbeNames: []string{"accept-expected", "reason:length", "reason:r-range", "reason:s-range", "reason:t=0", "reason:pub-noncanonical", "reason:pub-offcurve", "reason:infinity", "reason:mismatch", "short-t-valid"},
 		StepUnit:   "deliveries + verify calls",
 	}
@@ -74,11 +77,7 @@ func c03Authentic(entry string, w *core.Rand) map[string]string {
 		case "VerifyHashed":
 			e = w.Bytes(32)
 			if w.Chance(1, 3) { // short t: r = t(1+d) - k
-				small := ref.Int(w.Bytes(32))
-				small.Rsh(small, uint(8*w.Range(1, 3)))
-				if small.Sign() == 0 {
-					small.SetInt64(1)
-				}
+				small := smallValue(w)
 				rv := new(big.Int).Add(d, big.NewInt(1))
 				rv.Mul(rv, small)
 				rv.Sub(rv, k)
@@ -267,6 +266,15 @@ func (c03) Generate(idx int, r *core.Rand, tier string) core.Script {
 		return s
 	}
 	s.Fields = c03Authentic(s.Entry, w)
+	if w.Chance(1, 3) { // earlier traffic through the same receive buffers
+		for i := w.Range(1, 3); i > 0; i-- {
+			b := c03Authentic(s.Entry, w)
+			if w.Chance(1, 3) { // same key as the main tuple
+				b["pubx"], b["puby"] = s.Fields["pubx"], s.Fields["puby"]
+			}
+			s.Before = append(s.Before, b)
+		}
+	}
 	nm := f.Weighted(3, 8, 2, 1)
 	needOther := false
 	for i := 0; i < nm; i++ {
@@ -313,24 +321,80 @@ func (c03) Execute(sc core.Script, keep bool) *core.Result {
 	if s.Byz != "" {
 		res.Faults["byz:"+s.Byz]++
 	}
-	px, py, rr, ss := out["pubx"], out["puby"], out["r"], out["s"]
+	// receive buffers reused across deliveries
+	recv := map[string][]byte{}
+	deliver := func(fields map[string][]byte) map[string][]byte {
+		o := map[string][]byte{}
+		for k, v := range fields {
+			if strings.HasPrefix(k, "other.") {
+				continue
+			}
+			b := recv[k]
+			if cap(b) < len(v) {
+				b = make([]byte, 0, len(v)+64)
+			}
+			b = append(b[:0], v...)
+			recv[k] = b
+			o[k] = b
+		}
+		return o
+	}
+	digest := func(f map[string][]byte) (e []byte) {
+		switch s.Entry {
+		case "VerifyHashed":
+			e = f["e"]
+		case "VerifyZa":
+			ee := ref.E(f["za"], f["msg"])
+			e = ee[:]
+		case "Verify":
+			za, _ := ref.ZA(f["id"], f["pubx"], f["puby"])
+			ee := ref.E(za[:], f["msg"])
+			e = ee[:]
+		}
+		return
+	}
+	call := func(f map[string][]byte, e []byte) (got bool, err error) {
+		switch s.Entry {
+		case "VerifyHashed":
+			return sm2.VerifyHashed(f["pubx"], f["puby"], e, f["r"], f["s"])
+		case "VerifyZa":
+			return sm2.VerifyZa(f["pubx"], f["puby"], f["za"], f["msg"], f["r"], f["s"])
+		}
+		return sm2.Verify(f["id"], f["pubx"], f["puby"], f["msg"], f["r"], f["s"])
+	}
+	for bi, b := range s.Before {
+		bf := map[string][]byte{}
+		for k, v := range b {
+			bf[k] = unhx(v)
+		}
+		if len(bf["id"]) >= 8192 {
+			continue
+		}
+		res.Faults["reused-receive-buffers"]++
+		d := deliver(bf)
+		e0 := digest(d)
+		reason0 := ref.VerifyReason(d["pubx"], d["puby"], e0, d["r"], d["s"])
+		var got bool
+		p, txt, _, _ := core.Catch(func() { got, _ = call(d, e0) })
+		log.Add("before#%d ref=%s lib: panic=%v ok=%v", bi, reason0, p, got)
+		if p || got != (reason0 == "ok") {
+			res.Violation = &core.Violation{Class: "wrong-verdict-in-history", Op: s.Entry, Role: "verifier", Param: reason0, Detail: fmt.Sprintf("earlier delivery %d: standard says %s, library ok=%v panic=%v %s", bi, reason0, got, p, txt)}
+			log.Add("VIOLATION %s", res.Violation.Detail)
+			res.Nontrivial = true
+			res.Fingerprint = "history-violation"
+			return res
+		}
+	}
 	if len(out["id"]) >= 8192 {
 		log.Add("id too long: outside this check")
 		res.Fingerprint = "skip"
 		return res
 	}
-	var e []byte
-	switch s.Entry {
-	case "VerifyHashed":
-		e = out["e"]
-	case "VerifyZa":
-		ee := ref.E(out["za"], out["msg"])
-		e = ee[:]
-	case "Verify":
-		za, _ := ref.ZA(out["id"], px, py)
-		ee := ref.E(za[:], out["msg"])
-		e = ee[:]
+	if len(s.Before) > 0 {
+		out = deliver(out)
 	}
+	px, py, rr, ss := out["pubx"], out["puby"], out["r"], out["s"]
+	e := digest(out)
 	reason := ref.VerifyReason(px, py, e, rr, ss)
 	want := reason == "ok"
 	if want {
@@ -345,27 +409,21 @@ func (c03) Execute(sc core.Script, keep bool) *core.Result {
 	}
 	var got bool
 	var err error
-	p, txt, _, _ := core.Catch(func() {
-		switch s.Entry {
-		case "VerifyHashed":
-			got, err = sm2.VerifyHashed(px, py, e, rr, ss)
-		case "VerifyZa":
-			got, err = sm2.VerifyZa(px, py, out["za"], out["msg"], rr, ss)
-		case "Verify":
-			got, err = sm2.Verify(out["id"], px, py, out["msg"], rr, ss)
-		}
-	})
+	p, txt, _, _ := core.Catch(func() { got, err = call(out, e) })
 	var mk []string
 	for _, m := range s.Muts {
 		mk = append(mk, m.Kind+":"+m.Field)
 	}
 	sort.Strings(mk)
 	log.Add("%s muts=%v byz=%s lens=%d,%d,%d,%d,%d ref=%s lib: panic=%v ok=%v err=%v", s.Entry, mk, s.Byz, len(px), len(py), len(e), len(rr), len(ss), reason, p, got, err != nil)
-	res.Fingerprint = core.Fp(s.Entry, strings.Join(mk, ","), s.Byz, reason)
-	res.Nontrivial = len(fired) > 0 || s.Byz != ""
+	res.Fingerprint = core.Fp(s.Entry, strings.Join(mk, ","), s.Byz, reason, fmt.Sprint(len(s.Before)))
+	res.Nontrivial = len(fired) > 0 || s.Byz != "" || len(s.Before) > 0
 	param := reason
 	if s.Byz != "" {
 		param += "/byz=" + s.Byz
+	}
+	if len(s.Before) > 0 {
+		param += "/after-earlier-deliveries-in-same-buffers"
 	}
 	viol := func(class, detail string) {
 		res.Violation = &core.Violation{Class: class, Op: s.Entry, Role: "verifier", Param: param, Detail: detail}
@@ -393,6 +451,16 @@ func (c03) Shrinks(sc core.Script) []core.Script {
 		return &c
 	}
 	var out []core.Script
+	if len(s.Before) > 0 {
+		c := cp()
+		c.Before = nil
+		out = append(out, c)
+		for i := range s.Before {
+			c := cp()
+			c.Before = append(c.Before[:i], c.Before[i+1:]...)
+			out = append(out, c)
+		}
+	}
 	for i := range s.Muts {
 		c := cp()
 		c.Muts = append(c.Muts[:i], c.Muts[i+1:]...)
@@ -409,7 +477,7 @@ func (c03) Shrinks(sc core.Script) []core.Script {
 		}
 		o, _ := wire.Apply(in, s.Muts)
 		if s.Entry == "VerifyHashed" {
-			c := &c03Script{Entry: s.Entry, Fields: map[string]string{}, Byz: s.Byz}
+			c := &c03Script{Entry: s.Entry, Fields: map[string]string{}, Byz: s.Byz, Before: s.Before}
 			for _, k := range c03Fields(s.Entry) {
 				c.Fields[k] = hx(o[k])
 			}
